@@ -1201,6 +1201,9 @@ class _CycleCell(_Cell):
         self._prev_value = None
         self.wip = False
         super().__init__(*args, **kwargs)
+        if self.formula:
+            # setting the initial value is not a calculation of the cell
+            iterative_eval_tracker.uncalced(self)
 
     @property
     def value(self):
